@@ -25,7 +25,7 @@ theorem mem_rot (s : Fix) (c : Nat) (h : c < s.n) : c ∈ s.rot := by
 
 macro "conc_tac" pol:ident law:ident : tactic =>
   `(tactic| (
-    refine ⟨$law, ?_, ?_, ?_, ?_⟩
+    refine ⟨$law, ?_, ?_, ?_, ?_, ?_⟩
     · intro s c hp hc
       simp only [$pol:ident, Bool.false_eq_true, if_false, if_true]
       first
@@ -39,7 +39,9 @@ macro "conc_tac" pol:ident law:ident : tactic =>
       (try split) <;> (try split) <;> simp
     · intro s
       simp only [$pol:ident]
-      (try split) <;> simp))
+      (try split) <;> simp
+    · intro n k c
+      simp [$pol:ident, Fix.init]))
 
 theorem conc_joinSlice : Conc joinSlice := by conc_tac joinSlice lawful_joinSlice
 theorem conc_joinTuple : Conc joinTuple := by conc_tac joinTuple lawful_joinTuple
